@@ -163,7 +163,7 @@ class SessionProp(Prop):
 T_PUB = G.Table([
     (16, G.o_publish), (4, G.o_publish_q12), (8, G.o_puback), (8, G.o_pubrec), (8, G.o_pubcomp),
     (3, G.o_fire), (3, G.o_advance_small), (2, G.o_window), (1, G.o_timeout), (1, G.o_lose_reconnect_persist),
-    (1, G.o_lose_reconnect_clean), (1, G.o_settle), (2, G.o_arm),
+    (1, G.o_lose_reconnect_clean), (1, G.o_settle), (2, G.o_arm), (2, G.o_segment),
 ])
 
 
@@ -331,7 +331,7 @@ T_SUB = G.Table([
     (10, G.o_subscribe), (8, G.o_unsubscribe), (8, G.o_suback), (8, G.o_unsuback), (3, G.o_ack_good),
     (4, G.o_window), (3, G.o_fire), (2, G.o_advance_small), (3, G.o_lose_reconnect_persist),
     (3, G.o_lose_reconnect_clean), (1, G.o_lose), (1, G.o_reconnect), (1, G.o_settle), (1, G.o_publish_q12),
-    (2, G.o_disconnect), (1, G.o_inpub), (2, G.o_arm),
+    (2, G.o_disconnect), (1, G.o_inpub), (2, G.o_arm), (2, G.o_segment),
 ])
 
 
